@@ -50,6 +50,9 @@ def run_property(pid: str, tier: str, seed: int, repo=None, write_evidence=True,
         repo.touched = set()
         mod = importlib.import_module(f"sa.rules.{pid.lower()}")
         mod.run(repo, report, tier)
+        from .rules import mirrors
+
+        mirrors.apply(repo, report)
         if own_alarm:
             signal.alarm(0)  # the budget is for the rules; the sweeps below have their own per-variant limit
         if tier == "thorough" and not repo.overrides and not any(o.state != "DISCHARGED" for o in report.obligations if not _is_known(o)):
